@@ -728,6 +728,76 @@ def rule_projection_clone(ck, facts, R="C12.pairing"):
     ck.floor(R, "projection_arms", n, 2)
 
 
+
+def rule_scope_exit_unconditional(ck, facts, R="C12.pairing"):
+    """the release at the end of a binding's scope does not depend on whether something follows the binding"""
+    from ..facts import place_fields
+
+    lang = facts.crate(roles.LANG)
+    rel = walkers_by_role(facts).get("release")
+    if rel is None:
+        return
+    evals = [f for f in lang.fns if "::compiler::mirgen" in f.path and f.kind == "assoc" and (cv := cover.coverage(facts, f, roles.EXPR)) is not None and cv.primary is not None and len(cv.primary_handled()) >= 20]
+    adt = facts.adt(roles.EXPR)
+    n = 0
+    for f in evals:
+        cov = cover.coverage(facts, f, roles.EXPR)
+        for v in sorted(cov.primary_handled()):
+            tb = cov.arm_target(v)
+            if tb is None:
+                continue
+            region = reachable(f, tb, stop=[cov.primary.block])
+            calls = [b for b in region if f.term(b)[KIND] == "call" and (callee(f.term(b)) or "") == rel.path]
+            if not calls:
+                continue
+            var = [x for x in adt["variants"] if x["n"] == v]
+            if not var:
+                continue
+            # payload fields that say whether a continuation exists: Option<ExprNodeId>
+            opt = {i for i, fld in enumerate(var[0]["f"]) if fld[1].replace(" ", "").endswith("Option<interner::ExprNodeId>") or "Option<interner::ExprNodeId>" in fld[1]}
+            if not opt:
+                continue
+            names = {"%s::%s::%s" % (roles.EXPR, v, var[0]["f"][i][0]) for i in opt}
+            # locals derived from those fields (references, copies, derefs)
+            taint = set()
+            changed = True
+            while changed:
+                changed = False
+                for b in region:
+                    for st in f.stmts(b):
+                        if st[KIND] != "a" or st[4][1] or st[4][0] in taint:
+                            continue
+                        rv = st[5]
+                        pls = []
+                        if rv[0] in ("ref", "disc"):
+                            pls.append(rv[1])
+                        elif rv[0] == "use" and rv[1][0] in ("cp", "mv"):
+                            pls.append(rv[1][1])
+                        for pl in pls:
+                            if pl[0] in taint or any(nm in names for nm in place_fields(pl)):
+                                taint.add(st[4][0])
+                                changed = True
+            n += 1
+            key = "scope-exit|%s" % v
+            dep = None
+            for sb in sorted(region):
+                t = f.term(sb)
+                if t[KIND] != "switch" or t[4][0] not in ("cp", "mv") or t[4][1][0] not in taint:
+                    continue
+                succ = [x for x in f.succs(sb) if x in region]
+                if len(succ) < 2:
+                    continue
+                hit = [any(c in reachable(f, x, stop=[cov.primary.block]) for c in calls) for x in succ]
+                if any(hit) and not all(hit):
+                    dep = (sb, t)
+                    break
+            if dep is None:
+                ck.ok(R, key, {"arm": v, "release_calls": len(calls)})
+            else:
+                ck.bad(R, key, "%s (arm %s): the release of the bound value at the end of its scope is emitted only on one side of the test whether a continuation follows the binding: a binding that is the last thing in a block, a function body or a branch is never released (one heap object per evaluation stays allocated)" % (f.short, v), f.where(dep[1]))
+    ck.floor(R, "scope_exit_release_arms", n, 1)
+
+
 def rule_release_order(ck, facts, R="C12.offsets"):
     """what a dying object owns is read before the object is given back"""
     from ..cfg import dominators
@@ -775,6 +845,7 @@ def run(ck, facts, tier):
 
     rule_pairing(ck, facts, None)
     rule_projection_clone(ck, facts)
+    rule_scope_exit_unconditional(ck, facts)
     rule_walker_recursion(ck, facts)
     rule_vm_walker_offsets(ck, facts)
     rule_release_order(ck, facts)
